@@ -212,10 +212,10 @@ def c07(a):
     return c.finish()
 
 
-def zoned_part(c, a, binary, driver):
+def zoned_part(c, a, binary, driver, extra=()):
     """Run a zoned driver (zd.rs) and validate it with Trace_Zoned.tla."""
     zd = compile_zones(c.pid)
-    ex = ["--zones", zd]
+    ex = ["--zones", zd] + list(extra)
     if a.replay:
         return   # zoned cases are replayed through the zone-restricted driver by the owning property
     drive_and_validate(c, a, binary, driver, "Trace_Zoned.tla", extra=ex)
@@ -247,13 +247,39 @@ def c13(a):
     c = Check("C13", a.tier, a.seed)
     workdir("C13")
     binary = build_harness()
-    zoned_part(c, a, binary, "c13")
+    if not a.replay:
+        # Engine B: every history over the 20-operation alphabet of ZonedOps.tla up to length 2 (thorough: 3),
+        # plus TLC-sampled histories of length 9
+        wd13 = workdir("C13", False)
+        r = tlc_mc("ZonedOps.tla", "MC_ZonedOps2.cfg" if a.tier == "quick" else "MC_ZonedOps3.cfg", os.path.join(wd13, "mc"), workers=1)
+        c.add_mc(r)
+        plans = _hist(r["out"])
+        want = 400 if a.tier == "quick" else 8000
+        if len(plans) != want:
+            raise ToolError(f"ZonedOps.tla: expected {want} complete histories, got {len(plans)}")
+        sims = tlc_simulate("ZonedOps.tla", "MC_ZonedOps9.cfg", os.path.join(wd13, "sim"), num=60 if a.tier == "quick" else 600,
+                            depth=10, seed=a.seed + 1)
+        seen = set()
+        for s_ in sims:
+            s_ = json.loads(s_) if isinstance(s_, str) else s_
+            if len(s_) == 9 and json.dumps(s_) not in seen and len(seen) < (200 if a.tier == "quick" else 3000):
+                seen.add(json.dumps(s_))
+                plans.append(s_)
+        pf = os.path.join(wd13, "plans.json")
+        with open(pf, "w") as f:
+            json.dump(plans, f)
+        zoned_part(c, a, binary, "c13", extra=["--plans", pf])
+    else:
+        zoned_part(c, a, binary, "c13")
     # every Zoned produced by the arithmetic / difference / rounding drivers is checked for WF as well
     zoned_part(c, a, binary, "c06")
     zoned_part(c, a, binary, "c10z")
-    c.rule = ZONED_RULE + ("C13 events: seeded operation histories (length <= 12 in thorough, 8 in quick) over checked_add/sub, "
-              "start/end_of_day, tomorrow/yesterday, first/last_of_month, round, with().hour/minute/month/day, nth_weekday, "
-              "Display->parse, DateTime::to_zoned, with_time_zone; after EVERY step the four components are checked against "
+    c.rule = ZONED_RULE + ("C13 events: operation histories over the 20-operation alphabet of ZonedOps.tla (checked_add/sub with "
+              "spans and durations, saturating add/sub, start/end_of_day, tomorrow/yesterday, first/last_of_month, round, "
+              "with().hour/minute/month/day/offset, nth_weekday, Display->parse, strftime->strptime, DateTime::to_zoned, "
+              "with_time_zone): every history up to length 2 (thorough: 3) enumerated by TLC, TLC-sampled histories of "
+              "length 9, and seeded histories (length <= 12 in thorough, 8 in quick), each run from instants around "
+              "transitions in every zone; after EVERY step the four components are checked against "
               "the zone, Eq/Ord/Hash of consecutive states against their instants, and zone changes for keeping the instant. "
               "The Zoned results of the C06 and C10 zoned drivers are checked for well-formedness too.")
     c.assumptions = TRUSTED + ["the harness's independent TZif / POSIX TZ readers", "zic"]
